@@ -51,6 +51,8 @@ func genC13(r *core.Rng, i int) (files map[string]string, prog string, extra []s
 			"SELECT COUNT(*) FROM (SELECT id FROM u WHERE id <= 2) x FULL JOIN t ON x.id < t.id",
 			"SELECT COUNT(*) FROM t FULL JOIN (SELECT id, k FROM u WHERE id <= 3) x ON t.k = x.k",
 			"SELECT COUNT(*) FROM t WHERE RAND(1, 6) > 0 AND RAND() >= 0",
+			"REPLACE INTO t (k, s) USING (k) VALUES ('a', 'ra'), ('b', 'rb'), ('c', 'rc'), ('d', 'rd'), ('e', 're'), ('zz', 'new'); SELECT COUNT(*) FROM t",
+			"REPLACE INTO t (v, s) USING (v) SELECT DISTINCT w, 'rv' FROM u WHERE w IS NOT NULL; SELECT COUNT(*) FROM t",
 			"SELECT k, COUNT(*), COUNT(DISTINCT v) FROM t GROUP BY k",
 			"SELECT COUNT(*) FROM t WHERE v IN (SELECT w FROM u WHERE u.id <= 3) OR EXISTS (SELECT 1 FROM u WHERE u.k = t.k AND u.id <= 2)",
 		}
